@@ -17,3 +17,4 @@ def rules(ctx):
     S.free_verdict_rules(ctx)
     S.key_compare_rules(ctx)
     S.extract_state_rules(ctx)
+    S.round4_residue_rules(ctx)
